@@ -2342,7 +2342,7 @@ template< size_t L>
    // test if string is already full
    if (mLength == L)
       return *this;
-   return append( std::string( count, ch));
+   return append( std::string( std::min( count, L - mLength), ch));
 } // FixedString< L>::append
 
 
@@ -2881,7 +2881,7 @@ template< size_t L>
       FixedString< L>::replace( size_t pos, size_t count, size_t count2,
          char ch) noexcept
 {
-   return replace( pos, count, std::string( count2, ch));
+   return replace( pos, count, std::string( std::min( count2, L), ch));
 } // FixedString< L>::replace
 
 
